@@ -407,9 +407,26 @@ def diff_results(rW, rR):
     return aspects, detail
 
 
+def detached_view(sim) -> tuple[frozenset, tuple]:
+    """What the watcher does not look at (known finding `watch-differs:change-while-detached`): the labels of
+    detached file nodes and the compiled patterns registered by detached steps, in the committed database."""
+    import re
+
+    try:
+        files = frozenset(l for (l,) in sim.query("SELECT label FROM node WHERE kind = 'file' AND detached"))
+        regexes = tuple(re.compile(rx, re.DOTALL) for (rx,) in sim.query(
+            "SELECT nglob.regex FROM nglob JOIN node ON node.i = nglob.node WHERE node.detached"))
+        attached = tuple(re.compile(rx, re.DOTALL) for (rx,) in sim.query(
+            "SELECT nglob.regex FROM nglob JOIN node ON node.i = nglob.node WHERE NOT node.detached"))
+        attached_files = frozenset(l for (l,) in sim.query("SELECT label FROM node WHERE kind = 'file' AND NOT detached"))
+    except Exception:  # noqa: BLE001
+        return frozenset(), (), (), frozenset()
+    return files, regexes, attached, attached_files
+
+
 def classify(aspects, rW, rR, newdirs, reports_w=(), reports_r=(), exists=lambda p: False,
              old_edits=frozenset(), recent_edits=frozenset(), created=frozenset(), ever_watched=frozenset(),
-             moved_dirs=frozenset(), exists_any=lambda p: True) -> str:
+             moved_dirs=frozenset(), exists_any=lambda p: True, detached=(frozenset(), (), (), frozenset())) -> str:
     if rW.status != "done" and rR.status == "done":
         err = rW.error or ""
         if "Unexpected file hash update" in err:
@@ -444,6 +461,13 @@ def classify(aspects, rW, rR, newdirs, reports_w=(), reports_r=(), exists=lambda
     if stale:
         # the restart's rescan noticed a change that was made in an EARLIER round (while the node was
         # detached, so that neither director cared then) and that the watcher has no item for
+        return "watch-differs:change-while-detached"
+    missed = {p for p in (upd_r | del_r) - (upd_w | del_w) if p in recent_edits}
+    if missed and all((p in detached[0] or any(rx.fullmatch(p) for rx in detached[1]))
+                      and p not in detached[3] and not any(rx.fullmatch(p) for rx in detached[2]) for p in missed):
+        # (nothing ATTACHED records an interest in the path: no attached file node, no pattern of an attached step)
+        # the same mechanism within one round: when the edit was made, the file node was detached, or the only
+        # patterns that match the path belonged to detached steps (their creator had failed or was to run again)
         return "watch-differs:change-while-detached"
     if any(any(p.startswith(d + "/") for d in moved_dirs) and not exists_any(p) for p in upd_w - upd_r):
         # the watcher's last item about a path is an UPDATE although the path is gone: a write inside a
@@ -535,6 +559,7 @@ def run_pair(ctx, project, kw, rounds_fn, seed, where, applied_log=None):
                             "external": [(k, plain(e)) for k, e in external]})
             if applied_log is not None:
                 applied_log.begin()
+            detached_now = detached_view(simW)
             rW = simW.watch_rebuild(edits, schedule=sched(), external=list(external))
             rR = simR.build(schedule=sched(), external=list(external), **kw)
             if applied_log is not None:
@@ -571,7 +596,7 @@ def run_pair(ctx, project, kw, rounds_fn, seed, where, applied_log=None):
                                frozenset(p for h in history[since:] for p in h.get("created", [])),
                                frozenset(ever_watched),
                                frozenset(e[1] for h in history[since:] for e in h.get("edits", []) if e[0] == "move"),
-                               lambda p: os.path.exists(os.path.join(simR.root, p)))
+                               lambda p: os.path.exists(os.path.join(simR.root, p)), detached_now)
                 what = (f"after edits {label}: watch rebuild and restart differ in {'+'.join(aspects)} "
                         f"(watch: {rW.status} {rW.returncode!r} ran {rW.commands}; restart: {rR.status} "
                         f"{rR.returncode!r} ran {rR.commands})")
@@ -949,8 +974,7 @@ def applied_correspondence(ctx, ncase: int, salt: str):
 
 
 class _QuietFindings:
-    """While the sessions are run for the model comparison, the oracle's findings are not reported
-    (the oracle has its own pass in `search`)."""
+    """(Formerly: findings of the model-comparison pass were dropped; they are kept now.)"""
 
     def __init__(self, ctx):
         self.ctx = ctx
@@ -959,7 +983,9 @@ class _QuietFindings:
         self.saved = list(self.ctx.findings)
 
     def __exit__(self, *exc):
-        self.ctx.findings[:] = self.saved
+        # The sessions of this pass are as real as those of `search` (the log only observes): what the oracle
+        # finds on them is reported too; a replay runs the same case without the log.
+        pass
 
 
 # ---------------------------------------------------------------------------------------------
